@@ -16,6 +16,16 @@ VERIF = os.path.dirname(os.path.dirname(os.path.abspath(__file__)))
 PY = "/venv/bin/python"
 
 
+def git_wt(*args):
+    """git worktree bookkeeping, one process at a time (add / remove / prune from concurrent evaluations race
+    on /repo/.git/worktrees)."""
+    import fcntl  # noqa: PLC0415
+
+    with open("/tmp/vf-worktree.lock", "w") as lk:
+        fcntl.flock(lk, fcntl.LOCK_EX)
+        return sh(["git", "-C", "/repo", "worktree", *args])
+
+
 def sh(cmd, cwd=None, env=None, timeout=3600):
     p = subprocess.run(cmd, cwd=cwd, env=env, capture_output=True, text=True, timeout=timeout, errors="replace")
     return p.returncode, (p.stdout or "") + (p.stderr or "")
@@ -38,7 +48,7 @@ def main():
     os.rmdir(wt)
     res = {"dir": src, "property": prop}
     try:
-        rc, out = sh(["git", "-C", "/repo", "worktree", "add", "-q", wt, "HEAD"])
+        rc, out = git_wt("add", "-q", wt, "HEAD")
         assert rc == 0, out
         shutil.copy(os.path.join(src, "demo.py"), os.path.join(wt, "demo_seed.py"))
         e = dict(os.environ, PYTHONDONTWRITEBYTECODE="1")
@@ -66,9 +76,8 @@ def main():
             res["checks"][c] = {"rc": rc, "violation_lines": out.count("VIOLATION property="), "mechanisms": sorted(set(mechs))[:8], "inconclusive": re.findall(r"INCONCLUSIVE.*", out)[:2]}
             shutil.rmtree(e2["VERIF_EVIDENCE_DIR"], ignore_errors=True)
     finally:
-        sh(["git", "-C", "/repo", "worktree", "remove", "--force", wt])
+        git_wt("remove", "--force", wt)
         shutil.rmtree(wt, ignore_errors=True)
-        sh(["git", "-C", "/repo", "worktree", "prune"])
     res["valid_seed"] = bool(res.get("applies") and res.get("demo_clean_rc") == 0 and res.get("demo_patched_rc", 0) != 0 and res.get("tests_passed", 0) >= 362 and res.get("tests_failed", 9) <= 2)
     res["caught_by"] = [c for c, v in res.get("checks", {}).items() if v["rc"] == 1]
     return res
